@@ -103,7 +103,7 @@ class Checker:
         if not np.all(np.isfinite(g)):
             self.fail(site, "non-finite result %s" % np.array2string(g, precision=4), **extra)
             return False
-        e = float(np.max(np.abs(g - w))) / scale
+        e = float(np.max(np.abs(g - w))) / max(scale, 1e-300)
         key = self.kind + "/" + site
         st_ = ERRSTATS.setdefault(key, [0.0, 0])
         st_[1] += 1
